@@ -35,6 +35,11 @@ uint8_t g_old;  /* its value before the call                               */
 size_t g_j;     /* index of an arbitrary byte of the source / of the result */
 uint8_t g_src;  /* value of the source byte at g_j before the call (needed when source may alias the destination) */
 
+/* DFCC makes every mutable static-lifetime variable NONDET at the start of the harness (so that a proof holds in any
+ * calling context).  Every harness therefore starts with GHOST_RESET() (all ghost switches off) and then switches on
+ * what it needs.  Ghost switches of other contract headers register themselves through GHOST_RESET_EXTRA_n hooks. */
+#define GHOST_RESET_COMMON() do { g_on = false; g_last_error = 0; g_raise_count = 0; } while (0)
+
 /* ---- error channel: aws_raise_error() is inline and forwards to aws_raise_error_private().
  *      g_last_error is the ghost view of the thread-local error slot. ---- */
 int g_last_error;
@@ -62,6 +67,12 @@ __CPROVER_ensures(1)
  * so any read through it is flagged) */
 #define CUR_FIELDS_OK(c) (((c)->len == 0 && (c)->ptr == NULL) || __CPROVER_is_fresh((c)->ptr, (c)->len))
 #define CUR_OK(c) (__CPROVER_is_fresh((c), sizeof(*(c))) && CUR_FIELDS_OK(c))
+/* A view longer than any CBMC object (2^56 bytes) cannot be backed by memory in the model (nor in a real process).
+ * For functions that must REJECT such a length before touching the bytes, the view is left unbacked so that the
+ * "size next to SIZE_MAX" paths are reachable; any read through it is then flagged as an invalid dereference. */
+#define VERIF_HUGE ((size_t)1 << 56)
+#define CUR_FIELDS_OK_OR_HUGE(c) ((c)->len >= VERIF_HUGE || CUR_FIELDS_OK(c))
+#define CUR_OK_OR_HUGE(c) (__CPROVER_is_fresh((c), sizeof(*(c))) && CUR_FIELDS_OK_OR_HUGE(c))
 
 /* post-state shape of a buffer whose storage is the same object as before */
 #define BUF_SHAPE_KEPT(b)                                                                                              \
